@@ -632,10 +632,24 @@ func replayOnce(rs *RunSpec, trace []string) (sigs []string, log []string, err e
 		log = append(log, fmt.Sprintf("step %2d h=%d %-40s -> %s %s", i, s.Height, name, res.Outcome(), res.ErrString()))
 		log = append(log, diffStates(s, post)...)
 		t := &Trans{Pre: v, Act: *act, Res: res, Post: pv, PreMon: mon, PostMon: pm}
+		halt := act.Kind == "E" && res.Panic != ""
 		for _, o := range e.Oracles {
-			for _, vi := range o.Step(x, t) {
-				sigs = append(sigs, vi.Sig)
-				log = append(log, "    !! "+vi.Sig+" :: "+vi.Detail)
+			if halt && o.Prop() != "C20" {
+				continue // chain halt: judged by C20 only (explore.go)
+			}
+			if act.Kind == "restart" && res.OK() && o.Prop() != "C20" {
+				for _, vi := range restartPreserves(o.Prop(), x, t) {
+					sigs = append(sigs, vi.Sig)
+					log = append(log, "    !! "+vi.Sig+" :: "+vi.Detail)
+				}
+			} else {
+				for _, vi := range o.Step(x, t) {
+					sigs = append(sigs, vi.Sig)
+					log = append(log, "    !! "+vi.Sig+" :: "+vi.Detail)
+				}
+			}
+			if halt {
+				continue
 			}
 			for _, vi := range o.Invariant(x, pv, pm) {
 				vi.Sig = invSig(vi.Sig, act.Kind)
